@@ -133,3 +133,106 @@ def ev(f, e, env, locals_=None, depth=0):
     if k == "CallExpr" and e.get("cname") == "__builtin_expect":
         return ev(f, c[1], env, locals_, depth + 1)
     raise Unknown("expression kind %s `%s`" % (k, facts.expr_str(e)[:60]))
+
+
+class _Return(Exception):
+    def __init__(self, v):
+        self.v = v
+
+
+class _Break(Exception):
+    pass
+
+
+def run_body(f, body, env, max_steps=2000):
+    """Finite evaluation of a loop-free function body made of declarations of
+    integer locals, assignments to them, if / switch / break / return.  `env`
+    as for ev(); integer locals live in a private copy.  Returns the value of
+    the executed `return` (None for a bare return or fall-off).  Anything else
+    raises Unknown."""
+    st = dict(env)
+    try:
+        _run(f, body, st)
+    except _Return as r:
+        return r.v
+    return None
+
+
+def _flat_cases(body):
+    """statements of a switch body with labels unrolled into ('case', v) / ('default',) markers"""
+    out = []
+    for s in body.get("c", []) if body["k"] == "CompoundStmt" else [body]:
+        inner = s
+        while inner is not None and inner["k"] in ("CaseStmt", "DefaultStmt"):
+            if inner["k"] == "CaseStmt":
+                out.append(("case", facts.cval(inner["c"][0])))
+            else:
+                out.append(("default",))
+            inner = inner["c"][-1] if inner.get("c") else None
+        if inner is not None:
+            out.append(("stmt", inner))
+    return out
+
+
+def _run(f, s, st):
+    if s is None:
+        return
+    k = s["k"]
+    if k == "CompoundStmt":
+        for x in s.get("c", []):
+            _run(f, x, st)
+    elif k == "NullStmt":
+        return
+    elif k == "DeclStmt":
+        for d in s.get("c", []):
+            if d["k"] != "VarDecl":
+                continue
+            t = facts.tyi(f, d.get("t")) or {}
+            if t.get("k") in ("int", "bool", "enum"):
+                if d.get("c"):
+                    st[d["var"]] = wrap(ev(f, d["c"][0], st), t)
+            elif t.get("k") in ("ptr", "ref"):
+                continue        # pointer locals are seen through the term function
+            else:
+                raise Unknown("local of type %s" % t.get("k"))
+    elif k == "IfStmt":
+        real = [x for x in s["c"] if x is not None]
+        if ev(f, real[0], st):
+            _run(f, real[1], st)
+        elif len(real) > 2:
+            _run(f, real[2], st)
+    elif k == "ReturnStmt":
+        raise _Return(ev(f, s["c"][0], st) if s.get("c") else None)
+    elif k == "BreakStmt":
+        raise _Break()
+    elif k == "SwitchStmt":
+        real = [x for x in s["c"] if x is not None]
+        v = ev(f, real[0], st)
+        items = _flat_cases(real[-1])
+        start = None
+        for i, it in enumerate(items):
+            if it[0] == "case" and it[1] is not None and int(it[1]) == v:
+                start = i
+                break
+        if start is None:
+            for i, it in enumerate(items):
+                if it[0] == "default":
+                    start = i
+                    break
+        if start is None:
+            return
+        try:
+            for it in items[start:]:
+                if it[0] == "stmt":
+                    _run(f, it[1], st)
+        except _Break:
+            pass
+    elif k == "BinaryOperator" and s.get("op") == "=":
+        lhs = strip(s["c"][0])
+        if lhs["k"] != "DeclRefExpr" or not lhs.get("var"):
+            raise Unknown("assignment to %s" % facts.expr_str(lhs))
+        st[lhs["var"]] = wrap(ev(f, s["c"][1], st), facts.ty(f, lhs))
+    elif k in ("ExprWithCleanups",):
+        _run(f, s["c"][0], st)
+    else:
+        raise Unknown("statement kind %s" % k)
